@@ -525,10 +525,12 @@ int main(int argc, char** argv) {
   vt::Rng g(seed);
   if (trials > 0) {
     Ev("Begin").i("seg", 0).str("T", "stat").d("zero", 0.0).d("one", 1.0).emit();
+    alarm(600);
     for (long t = 0; t < trials; t++) { if (g.chance(25)) trial<float>(g, t); else trial<double>(g, t); }
     Ev("Verdict").emit();
   } else {
     for (long seg = 0; seg < segments; seg++) {
+      alarm(30);    // watchdog: a sketch that loops forever is a finding (the recorder dies by SIGALRM), not a hung check
       if (g.chance(35)) { Driver<float> d(g, serde_pct); d.hdr_pct = hdr_pct; d.segment(seg, events); }
       else { Driver<double> d(g, serde_pct); d.hdr_pct = hdr_pct; d.segment(seg, events); }
     }
